@@ -219,6 +219,19 @@ def rule_r2(ctx, rep):
         fi = prog.func(q)
         rep.touch(fi)
         mts = meta_tests(ctx, fi, meta)
+        # the test must be about the node the function works on, not about a neighbour of it
+        if q == "metapype.eml.rule.Rule._validate_children":
+            subjects = {f"{fi.params[0]}._node", fi.params[1]}
+        else:
+            subjects = {fi.params[0]}
+        wrong = [m for m in mts if m[1] not in subjects]
+        mts = [m for m in mts if m[1] in subjects]
+        if wrong and not mts:
+            rep.count("metadata constant sites")
+            rep.oblige(("R2", q, "subject"), False)
+            rep.add("R2", q, wrong[0][0], f"the metadata test inspects `{wrong[0][1]}`, not the node {fi.name} works on: the metadata element itself "
+                    f"is treated like an ordinary node and its free-form content is judged by its rule", fi.loc(wrong[0][0]))
+            continue
         rep.count("metadata constant sites")
         rep.oblige(("R2", q), bool(mts))
         if not mts:
